@@ -255,6 +255,15 @@ def run(chk):
         "concatenate_assign / constructor-from-system space-dimension overflow cannot be exercised (needs an argument of dimension > 2^60): proved in the model only",
     ]
     chk.prove(["Except/Precond.v", "Except/Alloc.v", "Except/AllocProgs.v"])
+    # --replay: re-run only the part (and, for the fault modes, only the scenarios) named by the replay file, with its seed and tier
+    only, only_scn = None, None
+    if chk.replay:
+        rp = json.load(open(chk.replay))
+        only = rp.get("info", {}).get("mode")
+        chk.seed = rp.get("seed", chk.seed); chk.tier = rp.get("tier", chk.tier)
+        only_scn = [e.get("scenario") for e in rp.get("examples", []) if e.get("scenario")] or None
+        chk.log("replay: mode %s scenarios %s" % (only, only_scn))
+    def want(mode): return only is None or only == mode
     # ---- builds ----
     common.coq_extract("ExtractBase.v", ["base.ml", "base.mli"], deps=polycheck.BASE_COQ + ["Extract/ExtractBase.v"])
     common.coq_extract("Extract_except.v", ["except.ml", "except.mli"], deps=["Except/Precond.v", "Except/Alloc.v", "Except/AllocProgs.v", "Extract/Extract_except.v"])
@@ -265,7 +274,7 @@ def run(chk):
     chk.log("harnesses built")
 
     # ---- (a) rejected calls ----
-    ncases = 60 if chk.quick else 700
+    ncases = (60 if chk.quick else 300) if want("reject") else 0
     res = c14_reject.run(chk, rej_exe, judge_poly, judge_exc, chk.seed * 7919 + 14, ncases, 45)
     chk.evaluations += res["calls"] + res["followups"]
     for v in res["variants"]: chk.nontrivial.add(("reject",) + v)
@@ -300,7 +309,7 @@ def run(chk):
     rows = [n for n in names if "." not in n and n not in containers]
 
     # ---- (b) traces of the modelled programs ----
-    run_traces(chk, exe, judge_exc, containers)
+    run_traces(chk, exe, judge_exc, containers if want("trace") else [])
     chk.log("traces compared: %s positions" % chk.extra.get("trace_positions_compared"))
 
     # ---- (b) fault enumeration ----
@@ -308,6 +317,8 @@ def run(chk):
         sel = containers + rows + [n for n in QUICK_DOMAIN if n in names]; maxk = 150
     else:
         sel = names; maxk = 400
+    if only_scn: sel = [n for n in names if n in only_scn]
+    if not want("sweep"): sel = []
     results = c14_fault.run_many(exe, "sweep", sel, maxk=maxk, layers=layers, timeout=60 if chk.quick else 90)
     report_sweeps(chk, "sweep", results, ("bad_alloc",))
     chk.extra["fault_enumeration"]["sweep"]["max_positions_per_scenario"] = maxk
@@ -319,13 +330,15 @@ def run(chk):
     chk.log("fault sweep: %s" % json.dumps({k: v for k, v in chk.extra["fault_enumeration"]["sweep"].items() if k != "by_kind"}))
     ab = [n for n in ABANDON if n in names]
     if chk.quick: ab = ab[:6]
-    results = c14_fault.run_many(exe, "abandon", ab, maxk=60 if chk.quick else 400, timeout=60)
+    if only_scn: ab = [n for n in names if n in only_scn]
+    results = c14_fault.run_many(exe, "abandon", ab if want("abandon") else [], maxk=60 if chk.quick else 400, timeout=60)
     report_sweeps(chk, "abandon", results, ("abandoned",))
-    results = c14_fault.run_many(exe, "weight", ab[:4] if chk.quick else ab, maxk=12 if chk.quick else 40, timeout=60)
+    results = c14_fault.run_many(exe, "weight", (ab[:4] if chk.quick else ab) if want("weight") else [], maxk=12 if chk.quick else 40, timeout=60)
     report_sweeps(chk, "weight", results, ("abandoned", "ok"))
 
     # ---- overflow on the checked-int8 build ----
     try:
+        if not want("overflow"): raise StopIteration
         exe8 = build_fault("int8")
         rc, out = common.sh([exe8, "overflow", str(chk.seed), str(400 if chk.quick else 6000)], timeout=900)
         d = None
@@ -340,6 +353,8 @@ def run(chk):
         else:
             chk.extra["overflow_int8"] = d
             chk.evaluations += int(d.get("cases", 0)); chk.nontrivial.add(("overflow", d.get("overflows")))
+    except StopIteration:
+        pass
     except common.BuildError as e:
         chk.broken.append(("int8-build", str(e)[-800:]))
 
